@@ -1,0 +1,7 @@
+//go:build !verif
+
+package util
+
+const verifOn = false
+
+func verifEmit(string, ...interface{}) {}
